@@ -199,6 +199,11 @@ with SqliteImpl.impl_store.impl_manager as impl:
     def _clip(x, lower, upper):
         return sqa.func.max(sqa.func.min(x, upper), lower)
 
+    @impl(ops.rand)
+    def _rand():
+        # SQLite's random() returns a 64-bit integer; map it to a float in [0, 1)
+        return sqa.func.random() / sqa.literal_column("18446744073709551616.0", sqa.Double) + sqa.literal_column("0.5", sqa.Double)
+
     @impl(ops.dt_day_of_week)
     def _day_of_week(x):
         return (sqa.extract("dow", x) + 6) % sqa.literal_column("7") + 1
